@@ -726,6 +726,28 @@ def run(ctx):
     ctx.ob("R04.6", "remap[t] in range", not bad and all(r for _, r in conds), site=A.where(top), detail={"conditions": [A.src(c) for c, _ in conds], "reaches_table_access_with": bad},
            what="remap[t] can be read with %s" % bad[:2])
 
+    # ---- R04.11: what the recursion callbacks cut off the address before they dispatch below
+    ctx.rule("R04.11", "SNIP-ONE-LEVEL: every recursion callback (rRecur, rRecurp, rRecurs, rRecursp) moves its message cursor, before it dispatches in the child's table, just behind the first '/' of the address - one level, exactly one separator (`sub//val` continues with `/val`, which names no port) - or to the end when there is none; the callback's own cursor statements are evaluated on probe addresses")
+    from ..rules import sugar as SG
+    from ..facts import WITNESS_DIR
+    import os as _os
+    uw = ctx.ast("sugar_matrix.cpp")
+    probes11 = ["sub/val", "sub//val", "sub/", "sub", "a/b/c", "/x", "slot2//v", "s/"]
+    n11 = 0
+    for L11 in SG.lambdas(uw, _os.path.join(WITNESS_DIR, "sugar_matrix.cpp")):
+        if not L11.macro.startswith("rRecur") or not any(c_.get("kind") == "CXXMemberCallExpr" and A.strip_casts(A.kids(c_)[0]).get("name") == "dispatch" for c_ in A.walk(L11.body)):
+            continue
+        try:
+            offs = SG.snip_offsets(uw, L11, probes11)
+        except FD.Unknown as e:
+            raise AnalysisBroken("R04.11: the cursor statements of %s are not evaluable: %s" % (L11.label, e))
+        n11 += 1
+        bad11 = [{"address": t_, "continues_with": t_[o_:] if 0 <= o_ <= len(t_) else "outside the address (%d)" % o_, "expected": t_[(t_.index("/") + 1) if "/" in t_ else len(t_):]}
+                 for t_, o_ in offs.items() if o_ != ((t_.index("/") + 1) if "/" in t_ else len(t_))]
+        ctx.ob("R04.11", L11.label, not bad11, site=A.where(L11.body), detail={"probes": len(probes11), "mismatches": bad11[:4]}, key="R04.11:%s" % L11.macro,
+               what="%s dispatches below with the wrong rest of the address: %s" % (L11.label, bad11[:3]))
+    ctx.require(n11 >= 4, "R04.11: only %d recursion callbacks with a dispatch below found in the witness" % n11)
+
     # ---- R04.7
     ctx.rule("R04.7", "HASH-VERIFY: the verification of the port the perfect hash selects (Port_Matcher::hard_match), evaluated over literal names x addresses, accepts exactly what the documented matching of a literal name accepts - a subtree `name/` every address below it, any other name only the address that spells it - so the hashed strategy invokes the ports the linear scan invokes")
     hm = u.function("Port_Matcher::hard_match")
